@@ -417,6 +417,7 @@ class _AllocFlow:
     def _drop(b, key):
         for k in [k for k in b if k == key or _is_prefix(key, k)]:
             del b[k]
+        b.pop('@' + key, None)      # index recorded ahead of its mark
         _AllocFlow._forget(b, key)
 
     def _bind(self, b, key, value, nid):
@@ -570,6 +571,10 @@ class _AllocFlow:
                         rec = b.get(self._key(ds[0][0].ast.iter))
                         if rec is not None and rec[0] != 'obj':
                             rec = None
+                    if rec is None:
+                        # `found.append(n)` right before `cell[n] = 1`: the
+                        # index (not re-bound since) is recorded already
+                        rec = b.get('@' + idx.id)
                 marks = marks | {(m['K'], unparse(idx), _names(idx), rec)}
         elif isinstance(a, (ast.AugAssign, ast.AnnAssign)):
             t = a.target
@@ -603,7 +608,11 @@ class _AllocFlow:
                 args = arg.elts if fn.attr == 'extend' and isinstance(
                     arg, (ast.List, ast.Tuple)) else [arg]
                 for x in args:
+                    before = marks
                     marks = self._record(marks, x, obj)
+                    if marks == before and isinstance(x, ast.Name) and \
+                            fn.attr in ('append', 'add'):
+                        b['@' + x.id] = obj
             elif call_name(c) == 'self._dealloc' and c.args and \
                     unparse(c.args[0]) == self.task and slots:
                 sl = dict(slots)
@@ -691,6 +700,7 @@ def r20_2(prog, rep, rid='R20.2'):
     free_val = {}
     for m in dm:
         free_val[m['K']] = m['val']
+    tested_only = {}    # kind whose cell is tested free where another is marked
     for m in am:
         K, idx, v, node, stmt = m['K'], m['idx'], m['val'], m['node'], \
             m['stmt']
@@ -706,6 +716,7 @@ def r20_2(prog, rep, rid='R20.2'):
                   'the index the first still uses' % K[:-1])
         # (a) a free test of the same cell guards the mark
         verdict = None
+        other_kind = None       # a test of the cell [n] of another kind
         for tid, lab in guards(ga, node.id):
             a = ga.nodes[tid].ast
             free_on = None
@@ -730,10 +741,15 @@ def r20_2(prog, rep, rid='R20.2'):
                     ('F' if eq else 'T')
             else:
                 continue
+            if cand[0] != K and unparse(cand[1]) == it and lab == free_on \
+                    and P.same_binding(_names(idx), tid, node.id):
+                other_kind = cand[0]
             if cand[0] != K or unparse(cand[1]) != it or \
                     not P.same_binding(_names(idx), tid, node.id):
                 continue
             verdict = 'ok' if lab == free_on else (verdict or 'wrong')
+        if verdict is None and other_kind is not None:
+            tested_only.setdefault(other_kind, (K, it, stmt))
         if verdict is None:
             # an index that is not a plain loop index was chosen somehow:
             # by a test this analysis does not see
@@ -755,7 +771,11 @@ def r20_2(prog, rep, rid='R20.2'):
                   message='_alloc marks %s[%r][%s] busy %s: a %s that another '
                   'request holds is handed out again'
                   % (RES, K, it, 'under a test of that cell with the wrong '
-                     'polarity' if verdict == 'wrong' else 'without testing '
+                     'polarity' if verdict == 'wrong' else 'under a free '
+                     'test of %s[%r][%s], a cell of another kind (the kind '
+                     'tested and the kind marked differ)' % (RES, other_kind,
+                                                             it)
+                     if other_kind is not None else 'without testing '
                      'that the cell is free', K[:-1]),
                   loc=fa.loc(stmt),
                   history='worker with 2 cores, request A holds core 0; '
@@ -872,6 +892,28 @@ def r20_2(prog, rep, rid='R20.2'):
                   loc=fd.loc(),
                   history='each request with %s leaks them; the worker '
                   'eventually refuses every request' % K)
+    # a kind which is handed out (tested free, recorded in task['slots'],
+    # freed by _dealloc) but which no statement of _alloc marks busy
+    for K in sorted((set(tested_only) | seen_kinds) - set(kinds)):
+        how = ' and '.join(
+            w for c, w in ((K in tested_only, 'tested free'),
+                           (K in slot_seen, "recorded in task['slots']"),
+                           (K in seen_kinds, 'freed by _dealloc')) if c)
+        tk = tested_only.get(K)
+        rep.bad(rid, fa, 'unmarked:%s' % K,
+                "_alloc never marks a cell of %s[%r] busy although %s are %s"
+                "%s: the kind tested / recorded and the kind marked do not "
+                "agree, so every request is given the same %s and "
+                "_dealloc's `assert %s[%r][n]` trips"
+                % (RES, K, K, how,
+                   ' (the store under the free test of %s[%r][%s] writes '
+                   '%s[%r][%s])' % (RES, K, tk[1], RES, tk[0], tk[1])
+                   if tk else '', K, RES, K),
+                fa.loc(tk[2]) if tk else fa.loc(),
+                history='worker with 4 cores / 2 %s; requests a and b ask for '
+                'one of the %s each and b arrives while a is running: both '
+                'get index 0; when a completes, _dealloc fails its assert'
+                % (K, K))
 
 
 # ------------------------------------------------------------------------------
@@ -919,6 +961,12 @@ def r20_8(prog, rep, rid='R20.8'):
             for K, it, nm, rec in marks:
                 if rec is None or sl.get(K) != rec:
                     bad.setdefault(K, ('fails (assert / raise)', t))
+    fd = prog.method(WD[0], WD[1], '_dealloc')
+    for K in sorted({m['K'] for m in _Paths(prog, fd).cell_stores()} -
+                    {m['K'] for m in A.marks}):
+        # (R20.2 reports that the kind is handed out without being marked)
+        rep.ok(rid, fa, 'no cell of %s is marked by _alloc: nothing is left '
+               'marked on a refusing path' % K, fa.loc())
     for K in sorted({m['K'] for m in A.marks}):
         st = [m['stmt'] for m in A.marks if m['K'] == K][0]
         how, t = bad.get(K, (None, None))
@@ -3037,11 +3085,213 @@ def r20_9(prog, rep, rid='R20.9', tier='quick'):
 
 # ------------------------------------------------------------------------------
 #
+# ------------------------------------------------------------------------------
+# R20.10  the backlog of requests for a master that has not registered yet
+#
+BACKLOG = 'self._raptor_tasks'
+
+
+def _old_cell_read(P, v, nid, key, knames=(), depth=0):
+    """v (read at nid) reads the cell BACKLOG[key] / BACKLOG.get(key, ..) /
+    BACKLOG.pop(key, ..), directly or through a local that was bound to such
+    a read (under the same binding of the key)"""
+    c = P.canon(v, nid)
+    for x in ast.walk(v):
+        if isinstance(x, ast.Name) and isinstance(x.ctx, ast.Load) and \
+                depth < 3 and x.id not in P.f.params:
+            ds = P.rdefs(x.id, nid)
+            if len(ds) == 1 and ds[0][1] is not None and \
+                    ds[0][0].kind == 'stmt' and \
+                    P.same_binding(knames, ds[0][0].id, nid) and \
+                    _old_cell_read(P, ds[0][1], ds[0][0].id, key, knames,
+                                   depth + 1):
+                return True
+    for x in ast.walk(c):
+        if isinstance(x, ast.Subscript) and unparse(x.value) == BACKLOG and \
+                unparse(x.slice) == key:
+            return True
+        if isinstance(x, ast.Call) and isinstance(x.func, ast.Attribute) and \
+                x.func.attr in ('get', 'pop', 'setdefault') and \
+                unparse(x.func.value) == BACKLOG and x.args and \
+                unparse(x.args[0]) == key:
+            return True
+    return False
+
+
+def _touches_backlog(P, n):
+    if n.kind != 'stmt' or n.ast is None or isinstance(
+            n.ast, (ast.FunctionDef, ast.AsyncFunctionDef, ast.ClassDef)):
+        return False
+    for kind, target, stmt in I.stores(n.ast):
+        if _is_prefix(BACKLOG, unparse(P.canon(target, n.id))):
+            return True
+    return any(isinstance(c.func, ast.Attribute) and
+               c.func.attr in ('pop', 'setdefault', 'update', 'clear',
+                               'popitem') and
+               unparse(P.canon(c.func.value, n.id)) == BACKLOG
+               for c in calls_in(n.ast))
+
+
+def _absent_guard(P, node, key, key_names):
+    """'absent' / 'present' / None: what the guards of node say about
+    `key in BACKLOG`"""
+    out = None
+    for tid, lab in guards(P.g, node.id):
+        a = P.g.nodes[tid].ast
+        at = tid
+        if isinstance(a, ast.Name):
+            # the test result held in a local: `known = k in BACKLOG`
+            ds = P.rdefs(a.id, tid)
+            if len(ds) == 1 and ds[0][1] is not None and \
+                    ds[0][0].kind == 'stmt':
+                a, at = ds[0][1], ds[0][0].id
+        neg = False
+        while isinstance(a, ast.UnaryOp) and isinstance(a.op, ast.Not):
+            a, neg = a.operand, not neg
+        if neg:
+            lab = 'F' if lab == 'T' else 'T'
+        if not (isinstance(a, ast.Compare) and len(a.ops) == 1 and
+                isinstance(a.ops[0], (ast.In, ast.NotIn))):
+            continue
+        if at != tid:
+            # nothing enters / leaves the backlog between test and branch
+            anc, todo = set(), [tid]
+            while todo:
+                for e in P.g.pred[todo.pop()]:
+                    if not e.back and e.src not in anc:
+                        anc.add(e.src)
+                        todo.append(e.src)
+            between = P.g.reachable(at, no_back=True) & anc
+            if any(_touches_backlog(P, P.g.nodes[x]) for x in between
+                   if x != at):
+                continue
+        tid = at
+        c = P.canon(a, tid)
+        cont = c.comparators[0]
+        if isinstance(cont, ast.Call) and isinstance(cont.func, ast.Attribute) \
+                and cont.func.attr == 'keys' and not cont.args:
+            cont = cont.func.value
+        if unparse(cont) != BACKLOG or unparse(c.left) != key or \
+                not P.same_binding(key_names, tid, node.id):
+            continue
+        absent = isinstance(a.ops[0], ast.NotIn) == (lab == 'T')
+        out = 'absent' if absent else 'present'
+    return out
+
+
+def r20_10(prog, rep, rid='R20.10'):
+    rep.rule(rid, 'a store into a cell self._raptor_tasks[k] of the backlog '
+             '(requests cached until their master registers; filled over '
+             'many scheduling rounds, drained only by the registration) keeps '
+             'what the cell holds: it is guarded by `k not in` the backlog, '
+             'or it accumulates (+=, extend, old + new), or the old value '
+             'was read out before the cell is reset', minimum=1)
+    C = prog.cls(*SCH)
+    attr = BACKLOG.split('.', 1)[1]
+    hist = ('master.0000 has not registered its queue yet; scheduling round 1 '
+            'brings req.0, req.1 for it (cached), round 2 brings req.2: the '
+            'cell is overwritten; register_raptor_queue relays only req.2 - '
+            'req.0 and req.1 are never relayed, never fail, never complete')
+    for mname, m0 in sorted(C.methods.items()):
+        if mname == '__init__':
+            continue
+        for m in all_funcs(m0):
+            if not any(isinstance(x, ast.Attribute) and x.attr == attr
+                       for x in walk(m.node)):
+                continue
+            P = _Paths(prog, m)
+            for kind, target, stmt in I.stores(m.node):
+                node = P.smap.get(id(stmt))
+                if node is None:
+                    continue
+                if kind == 'mutate':
+                    # BACKLOG[k].extend(..) / BACKLOG.setdefault(k, []).extend
+                    c = P.canon(target, node.id)
+                    cell = isinstance(c, ast.Subscript) and \
+                        unparse(c.value) == BACKLOG or \
+                        isinstance(c, ast.Call) and \
+                        isinstance(c.func, ast.Attribute) and \
+                        c.func.attr == 'setdefault' and \
+                        unparse(c.func.value) == BACKLOG
+                    if cell and stmt.func.attr in ('extend', 'append',
+                                                   'insert'):
+                        rep.saw(m)
+                        rep.ok(rid, m, '`%s` adds to the backlog cell'
+                               % short(stmt, 60), m.loc(stmt))
+                    continue
+                if kind not in ('assign', 'aug'):
+                    continue
+                c = P.canon(target, node.id)
+                # (the container as a whole is bound where the scheduler
+                # process starts, before its loop: not a cell store)
+                if not (isinstance(c, ast.Subscript) and
+                        unparse(c.value) == BACKLOG):
+                    continue
+                rep.saw(m)
+                key = unparse(c.slice)
+                knames = [n_ for n_ in _names(c.slice) if n_ != 'self']
+                guard = _absent_guard(P, node, key, knames)
+                if kind == 'aug':
+                    if not isinstance(stmt.op, ast.Add):
+                        raise AnalysisError(
+                            'UNRECOGNISED-IDIOM %s: `%s`' % (m.where,
+                                                             short(stmt, 60)))
+                    rep.check(guard != 'absent', rid, m,
+                              '`%s` extends the backlog of %s' % (
+                                  short(stmt, 60), key), construct=stmt,
+                              message='%s: `%s` extends the backlog cell of '
+                              'a key that is known to be absent (`%s not in '
+                              '%s`): KeyError, the requests of this round '
+                              'are lost with the exception'
+                              % (m.qual, short(stmt, 60), key, BACKLOG),
+                              loc=m.loc(stmt),
+                              history='the first request for a master that '
+                              'has not registered yet')
+                    continue
+                if not isinstance(stmt, ast.Assign) or len(stmt.targets) != 1:
+                    raise AnalysisError('UNRECOGNISED-IDIOM %s: `%s`'
+                                        % (m.where, short(stmt, 60)))
+                v = stmt.value
+                if _old_cell_read(P, v, node.id, key, knames):
+                    rep.ok(rid, m, '`%s` keeps the old content of the cell'
+                           % short(stmt, 60), m.loc(stmt))
+                    continue
+                if _is_new_list(v):
+                    # reset after the content was read out (a drain)
+                    readers = [n.id for n in P.g.nodes
+                               if n.kind == 'stmt' and n.ast is not None and
+                               n.id != node.id and not isinstance(
+                                   n.ast, (ast.FunctionDef, ast.ClassDef)) and
+                               _old_cell_read(P, n.ast, n.id, key) and
+                               P.same_binding(knames, n.id, node.id)]
+                    if readers and must_pass(P.g, P.g.entry.id, node.id,
+                                             readers):
+                        rep.ok(rid, m, '`%s` resets the cell after its '
+                               'content was read' % short(stmt, 60),
+                               m.loc(stmt))
+                        continue
+                rep.check(guard == 'absent', rid, m,
+                          '`%s` creates the backlog cell of a key that has '
+                          'none' % short(stmt, 60), construct=stmt,
+                          message='%s: `%s` overwrites the backlog cell %s[%s]'
+                          ' %s: the backlog collects requests over many '
+                          'scheduling rounds and is drained only when the '
+                          'master registers its queue, so requests cached in '
+                          'an earlier round are dropped - never relayed, '
+                          'never failed (accumulate with += instead)'
+                          % (m.qual, short(stmt, 60), BACKLOG, key,
+                             'on the path where the key is already present'
+                             if guard == 'present' else
+                             'without testing that the key is absent'),
+                          loc=m.loc(stmt), history=hist)
+
+
 def run(prog, rep, tier):
     rep.decided = ('DefaultWorker touches its occupancy lists only under '
         '_rlock; _alloc marks only cells it tested free, records exactly '
         'those in task[\'slots\'] and _dealloc frees the recorded cells of '
-        'the same kind; _alloc is all-or-nothing (no path ends with a false '
+        'the same kind (the kind tested free, marked, recorded and freed '
+        'agree; every kind handed out is marked); _alloc is all-or-nothing (no path ends with a false '
         'result or an explicit failure while a cell it marked is still busy); '
         'a method that enters a request into a table a callback thread looks '
         'up and also hands it on registers first (or both inside one critical '
@@ -3056,7 +3306,10 @@ def run(prog, rep, tier):
         '(three-valued over the attributes it leaves open), and _request_cb '
         'marks the executable requests raptor_seen; the agent '
         'scheduler forwards to raptor iff raptor_id and not worker and not '
-        'raptor_seen and relays backlogs once; the in-process dispatchers '
+        'raptor_seen and relays backlogs once; a store into a cell of the '
+        'backlog of a master that has not registered keeps what earlier '
+        'scheduling rounds cached (absent key, or accumulation); the '
+        'in-process dispatchers '
         'save/restore stdio and environment around the call and return '
         'code 0 / no exception exactly on the success path.')
     rep.undecided = ('process-level races between the worker process and the '
@@ -3088,6 +3341,7 @@ def run(prog, rep, tier):
     r20_5(prog, rep)
     r20_6(prog, rep)
     r20_9(prog, rep, tier=tier)
+    r20_10(prog, rep)
     rep.attempt(r20_7, prog, rep)
 
 
@@ -3544,6 +3798,77 @@ SILENT += [
         (_M, _ROUTE_CALLS, "        self._submit_executable_tasks(routes['exe'])\n        self._submit_raptor_tasks(routes['raptor'])")]),
     dict(name='routing by a conditional expression between the two lists', edits=[
         (_M, _ROUTE_IF, "            (executable_tasks if mode == TASK_EXECUTABLE else raptor_tasks).append(task)\n")]),
+]
+
+# ---- round 4: kind agreement in _alloc (R20.2), backlog (R20.10) -------------
+_GPU_MARK  = "                        self._resources['gpus'][n] = 1\n"
+_CORE_MARK = "                        self._resources['cores'][n] = 1\n"
+_GPU_TEST  = "                    if not self._resources['gpus'][n]:\n"
+_BL_IF   = "                        if name not in self._raptor_tasks:\n"
+_BL_NEW  = "                            self._raptor_tasks[name] = to_raptor[name]\n"
+_BL_ADD  = "                            self._raptor_tasks[name] += to_raptor[name]\n"
+_BL_BLOCK = _BL_IF + _BL_NEW + "                        else:\n" + _BL_ADD
+
+MUTATIONS += [
+    dict(name="R20.2 seed C20-g1: GPU loop marks the cell of 'cores'", rules=('R20.2',), edits=[
+        (_D, _GPU_MARK, "                        self._resources['cores'][n] = 1\n")]),
+    dict(name="R20.2 core loop marks the cell of 'gpus'", rules=('R20.2',), edits=[
+        (_D, _CORE_MARK, "                        self._resources['gpus'][n] = 1\n")]),
+    dict(name="R20.2 GPU loop tests the cell of 'cores' free", rules=('R20.2',), edits=[
+        (_D, _GPU_TEST, "                    if not self._resources['cores'][n]:\n")]),
+    dict(name="R20.2 seed C20-g1 through a cached list", rules=('R20.2',), edits=[
+        (_D, _GPU_TEST + _GPU_MARK,
+             "                    pool = self._resources['cores']\n" + _GPU_TEST +
+             "                        pool[n] = 1\n")]),
+    dict(name='R20.10 seed C20-g5: backlog of an unregistered master overwritten by the next round', rules=('R20.10',), edits=[
+        (_B, _BL_ADD, _BL_NEW)]),
+    dict(name='R20.10 backlog stored unconditionally', rules=('R20.10',), edits=[
+        (_B, _BL_BLOCK, "                        self._raptor_tasks[name] = to_raptor[name]\n")]),
+    dict(name='R20.10 presence test of the backlog inverted', rules=('R20.10',), edits=[
+        (_B, _BL_IF, "                        if name in self._raptor_tasks:\n")]),
+    dict(name='R20.10 backlog replaced by a copy of the new requests', rules=('R20.10',), edits=[
+        (_B, _BL_ADD, "                            self._raptor_tasks[name] = list(to_raptor[name])\n")]),
+]
+
+SILENT += [
+    dict(name='R20.2 GPU loop over enumerate() of a cached list, renamed index, early continue', edits=[
+        (_D, _GPU_LOOP,
+             "            if gpus:\n"
+             "                pool = self._resources['gpus']\n"
+             "                for idx, busy in enumerate(pool):\n"
+             "                    if busy:\n                        continue\n"
+             "                    pool[idx] = 1\n"
+             "                    alloc_gpus.append(idx)\n"
+             "                    if len(alloc_gpus) == gpus:\n"
+             "                        break\n")]),
+    dict(name='R20.2 GPU mark and record exchanged, free test against the free value', edits=[
+        (_D, _GPU_TEST + _GPU_MARK + "                        alloc_gpus.append(n)\n",
+             "                    if self._resources['gpus'][n] == 0:\n"
+             "                        alloc_gpus.append(n)\n" + _GPU_MARK)]),
+    dict(name='R20.2 kind names held in locals of _dealloc only, _alloc untouched', edits=[
+        (_D, "            for n in resources['gpus']:\n                assert self._resources['gpus'][n]\n                self._resources['gpus'][n] = 0\n",
+             "            held = resources['gpus']\n            for n in held:\n                assert self._resources['gpus'][n]\n                self._resources['gpus'][n] = 0\n")]),
+    dict(name='R20.10 backlog extended with old + new', edits=[
+        (_B, _BL_ADD, "                            self._raptor_tasks[name] = self._raptor_tasks[name] + to_raptor[name]\n")]),
+    dict(name='R20.10 backlog in early-continue form with a cached container', edits=[
+        (_B, _BL_BLOCK,
+             "                        backlog = self._raptor_tasks\n"
+             "                        if name in backlog:\n"
+             "                            backlog[name] += to_raptor[name]\n"
+             "                            continue\n"
+             "                        backlog[name] = to_raptor[name]\n")]),
+    dict(name='R20.10 backlog through get(name, []) + new', edits=[
+        (_B, _BL_BLOCK,
+             "                        cached = self._raptor_tasks.get(name, [])\n"
+             "                        self._raptor_tasks[name] = cached + to_raptor[name]\n")]),
+    dict(name='R20.10 presence test held in a negated local flag, branches exchanged', edits=[
+        (_B, _BL_BLOCK,
+             "                        known = name in self._raptor_tasks\n"
+             "                        if known:\n" + _BL_ADD +
+             "                        else:\n" + _BL_NEW)]),
+    dict(name='R20.10 backlog through setdefault().extend()', edits=[
+        (_B, _BL_BLOCK,
+             "                        self._raptor_tasks.setdefault(name, []).extend(to_raptor[name])\n")]),
 ]
 
 from .c14 import corpus_variants          # noqa: E402
